@@ -111,9 +111,11 @@ def region_of(key, filehex):
     return filehex
 
 
-def make_jobs(rng, per_codec, big):
+def make_jobs(rng, per_codec, big, only=None, tag=""):
     jobs = []
     for (key, disp, word, menc, mdec, spb, bpb) in CODECS:
+        if only is not None and family(key) not in only:
+            continue
         for j in range(per_codec):
             nb = rng.choice([1, 2, 3, 5, 8]) * (2 if big else 1)
             if key == "gsm":
@@ -124,13 +126,17 @@ def make_jobs(rng, per_codec, big):
             if kind == "square":
                 n = max(n, 3 * spb)
             xs = [max(-32768, min(32767, v)) for v in enc_content(rng, kind, max(1, n))]
-            jobs.append(dict(dir="enc", key=key, disp=disp, word=word, margs=menc, kind=kind, xs=xs, name="%s-enc-%d-%s" % (key, j, kind)))
+            jobs.append(dict(dir="enc", key=key, disp=disp, word=word, margs=menc, kind=kind, xs=xs, name="%s-enc%s-%d-%s" % (key, tag, j, kind)))
         for j in range(per_codec):
             nb = rng.choice([1, 2, 4, 6, 12]) * (2 if big else 1)
             kind = DEC_KINDS[j % len(DEC_KINDS)]
             data = dec_region(rng, key, kind, nb, bpb)
-            jobs.append(dict(dir="dec", key=key, disp=disp, word=word, margs=mdec, kind=kind, data=data, n=nb * spb, name="%s-dec-%d-%s" % (key, j, kind)))
+            jobs.append(dict(dir="dec", key=key, disp=disp, word=word, margs=mdec, kind=kind, data=data, n=nb * spb, name="%s-dec%s-%d-%s" % (key, tag, j, kind)))
     return jobs
+
+
+def family(key):
+    return "g72x" if key in BITS else key.rstrip("0123456789")
 
 
 def harness_script(job, n=None):
@@ -193,10 +199,10 @@ def replay_text(job, impl, model, k, diffs):
     return "\n".join(head) + "\n--- script\n" + harness_script(job)
 
 
-def campaign(ctx, per_codec, big=False):
+def campaign(ctx, per_codec, big=False, only=None, tag=""):
     """returns (list of (job, impl, model, first differing item), stats)"""
     rng = ctx.rng
-    jobs = make_jobs(rng, per_codec, big)
+    jobs = make_jobs(rng, per_codec, big, only, tag)
     model_answers(ctx, jobs)
     res = ctx.batch([(j["name"], harness_script(j)) for j in jobs], op_timeout=30, workers=3, clean=True)
     stats = collections.Counter()
@@ -241,20 +247,42 @@ def _report(ctx, found, diffs, as_violation):
     return paths
 
 
+def escalate(ctx, diffs, found, stats, budget=60.0):
+    """a table entry differs but the first batch shows no input for that codec family: more rounds for that family only (an entry of an encoder
+    table such as gsm_NRFAC moves one output in thousands), until an input is found or the budget is spent"""
+    import time
+    t0 = time.time()
+    rounds = 0
+    while time.time() - t0 < budget and rounds < 6:
+        have = {family(j["key"]) for (j, impl, model, k, lines) in found if impl is not None and k is not None}
+        missing = {d[0] for d in diffs} - have
+        if not missing:
+            break
+        rounds += 1
+        f2, s2 = campaign(ctx, 18, True, only=missing, tag="-x%d" % rounds)
+        found += f2
+        stats.update(s2)
+    stats["escalation_rounds"] = rounds
+    return found, stats
+
+
 def run(ctx, failed=()):
     """the C20 stage"""
     q = ctx.tier == "quick"
     diffs = list(getattr(ctx, "codectab_diffs", []))
     big = bool(diffs) or any("tables_extracted" in f or "_extracted" in f for f in failed)
     found, stats = campaign(ctx, (6 if q else 40) * (3 if big else 1), big)
+    if diffs:
+        found, stats = escalate(ctx, diffs, found, stats)
     ctx.count(stats["jobs"], tag="codecs20")
     for (key, *_rest) in CODECS:
         ctx.distinct.add("codecs20:" + key)
     ctx.coverage["traces_validated_against_impl"] += stats["jobs"]
     paths = _report(ctx, found, diffs, True)
     # `_extracted` theorems that stopped and whose codec now has a concrete failing input: later stages need not report them again
-    hit = {("g72x" if j["key"] in BITS else j["key"].rstrip("0123456789")) for (j, impl, model, k, lines) in found if impl is not None and k is not None}
-    ctx.lean_failures_with_input = [f for f in failed if "_extracted" in f and any(("." + c + "_") in f for c in hit)]
+    hit = {family(j["key"]) for (j, impl, model, k, lines) in found if impl is not None and k is not None}
+    # (a failure inside SfProps/C05G72x.lean, which the C20 modules import, is named by file and line)
+    ctx.lean_failures_with_input = [f for f in failed if ("_extracted" in f and any(("." + c + "_") in f for c in hit)) or ("C05G72x.lean" in f and "g72x" in hit)]
     ev = dict(stats)
     ev["differences"] = len(found)
     ev["table_entries_differing"] = len(diffs)
@@ -272,6 +300,7 @@ def search(ctx):
     if not diffs:
         return []
     found, stats = campaign(ctx, 12, True)
+    found, stats = escalate(ctx, diffs, found, stats, budget=30.0)
     paths = _report(ctx, found, diffs, False)
     ctx.notes["codec_table_search"] = {"jobs": stats["jobs"], "inputs_leaving_the_published_tables": len(found), "context_replays": paths}
     return paths
